@@ -9,7 +9,7 @@ import numpy as np
 from harness import common as C
 from harness import eofgen as G
 
-ANCHORS = ["T5opa", "T3"]
+ANCHORS = ["T5opa", "T3", "T9text"]
 MODELS = ["OpaCase"]
 TARGETS = ["Gen/T5opa.vo"]
 RULE = ("time-ordered multivariate series: white noise and red-noise mixtures (independent AR(1) series with distinct, known coefficients "
